@@ -41,7 +41,8 @@ def plan(tier):
                 'cross-key and cross-message negatives; freshness of generated keys and IVs; plus Encrypt/Decrypt/MAC/'
                 'Sign/Verify/DeriveKey/wrapped Get round trips through the server; a cell is (function, algorithm, mode, '
                 'padding, outcome)',
-        'min_monitor': {'references_compared': 1000, 'roundtrips': 500, 'negatives_tried': 100, 'fresh_values': 200},
+        'min_monitor': {'references_compared': 1000, 'roundtrips': 500, 'negatives_tried': 100, 'fresh_values': 200,
+                        'server_sign_verify_roundtrips': 20},
         'assumptions': ['"independent use of the same cipher" = cryptography.hazmat Cipher driven by the harness with '
                         'the stated key / IV / mode and hand-written padding',
                         'a combination the server refuses is not a violation (the property quantifies over what it accepts)'],
@@ -57,6 +58,8 @@ def cases(tier, seed):
     cs += [{'sign': i} for i in range(2 if tier == 'quick' else 8)]
     cs += [{'server': i} for i in range(8 if tier == 'quick' else 96)]
     cs += [{'server_derive': i} for i in range(4 if tier == 'quick' else 24)]
+    cs += [{'server_sign': i} for i in range(3 if tier == 'quick' else 16)]
+    cs += [{'asym': i} for i in range(1 if tier == 'quick' else 4)]
     return cs
 
 
@@ -215,6 +218,10 @@ def run_case(ctx, case):
         run_sign(ctx, rng, ce)
     elif 'server_derive' in case:
         run_server_derive(ctx, rng)
+    elif 'server_sign' in case:
+        run_server_sign(ctx, rng)
+    elif 'asym' in case:
+        run_asym(ctx, rng, ce)
     else:
         run_server(ctx, rng)
 
@@ -461,6 +468,7 @@ def run_sign(ctx, rng, ce):
             HA.SHA_512: hashes.SHA512, HA.MD5: hashes.MD5}
     dsas = [DSA.SHA1_WITH_RSA_ENCRYPTION, DSA.SHA224_WITH_RSA_ENCRYPTION, DSA.SHA256_WITH_RSA_ENCRYPTION,
             DSA.SHA384_WITH_RSA_ENCRYPTION, DSA.SHA512_WITH_RSA_ENCRYPTION, DSA.MD5_WITH_RSA_ENCRYPTION]
+    dsas = dsas + [m for m in DSA if m not in dsas]        # every member: one the engine starts to accept is examined too
     combos = [dict(digital_signature_algorithm=d, crypto_alg=None, hash_algorithm=None) for d in dsas] + \
              [dict(digital_signature_algorithm=None, crypto_alg=CA.RSA, hash_algorithm=h) for h in hmap]
     for combo, padm in itertools.product(combos, (PM.PKCS1v15, PM.PSS)):
@@ -487,10 +495,7 @@ def run_sign(ctx, rng, ce):
             ctx.violation('verify|%s|%s|rejects-own' % (label, padm.name), 'SignatureVerify rejects a signature produced by Sign', None)
         # independent verification
         try:
-            h = hmap[combo['hash_algorithm']] if combo['hash_algorithm'] else {
-                DSA.SHA1_WITH_RSA_ENCRYPTION: hashes.SHA1, DSA.SHA224_WITH_RSA_ENCRYPTION: hashes.SHA224,
-                DSA.SHA256_WITH_RSA_ENCRYPTION: hashes.SHA256, DSA.SHA384_WITH_RSA_ENCRYPTION: hashes.SHA384,
-                DSA.SHA512_WITH_RSA_ENCRYPTION: hashes.SHA512, DSA.MD5_WITH_RSA_ENCRYPTION: hashes.MD5}[combo['digital_signature_algorithm']]
+            h = hmap[combo['hash_algorithm']] if combo['hash_algorithm'] else _hash_of_dsa(combo['digital_signature_algorithm'])
             pk = serialization.load_der_public_key(pub) if pub[:1] == b'0' and b'\x06\x09' in pub[:30] else None
             if pk is None:
                 from cryptography.hazmat.primitives.serialization import load_der_public_key
@@ -500,11 +505,11 @@ def run_sign(ctx, rng, ce):
                     from cryptography.hazmat.primitives.asymmetric import rsa
                     from cryptography.hazmat.primitives.serialization import load_der_private_key
                     pk = load_der_private_key(priv, None).public_key()
-            if padm == PM.PKCS1v15:
+            if padm == PM.PKCS1v15 and h is not None:
                 pk.verify(sig, msg, apad.PKCS1v15(), h())
                 ctx.count('references_compared')
         except Exception as e:
-            if padm == PM.PKCS1v15:
+            if padm == PM.PKCS1v15 and h is not None:
                 ctx.violation('sign|%s|PKCS1v15|independent-verify' % label, 'an independent verifier rejects the signature: %s' % e, None)
         # negatives
         for what in ('message', 'signature', 'key'):
@@ -523,6 +528,164 @@ def run_sign(ctx, rng, ce):
             if ok2:
                 ctx.violation('verify|%s|%s|accepts-wrong-%s' % (label, padm.name, what), 'SignatureVerify accepted a wrong %s' % what, None)
     ctx.sample({'function': 'sign/verify', 'combos': len(combos) * 2})
+
+
+def _hash_of_dsa(d):
+    """hashlib-style name of the hash a Digital Signature Algorithm member names (None if it names none)."""
+    from cryptography.hazmat.primitives import hashes
+    n = d.name
+    for tok, h in (('SHA3_', None), ('SHA1', hashes.SHA1), ('SHA224', hashes.SHA224), ('SHA256', hashes.SHA256),
+                   ('SHA384', hashes.SHA384), ('SHA512', hashes.SHA512), ('MD5', hashes.MD5)):
+        if n.startswith(tok):
+            return h
+    return None
+
+
+def run_server_sign(ctx, rng):
+    """Sign / SignatureVerify through the server with pairs made by CreateKeyPair: valid exactly for own signatures
+    over the same message with the matching key; signatures also checked by an independent verifier."""
+    from cryptography.hazmat.primitives import hashes
+    from cryptography.hazmat.primitives.asymmetric import padding as apad
+    from cryptography.hazmat.primitives.serialization import load_der_public_key
+    DSA = E.DigitalSignatureAlgorithm
+    VALID, INVALID = E.ValidityIndicator.VALID.value, E.ValidityIndicator.INVALID.value
+    T_SIG, T_VAL = E.Tags.SIGNATURE_DATA.value, E.Tags.VALIDITY_INDICATOR.value
+    hmap = {HA.SHA_1: hashes.SHA1, HA.SHA_224: hashes.SHA224, HA.SHA_256: hashes.SHA256, HA.SHA_384: hashes.SHA384,
+            HA.SHA_512: hashes.SHA512, HA.MD5: hashes.MD5}
+    rig.install_clock(rig.VClock(step=1))
+    a = ('alice', None)
+    version = rng.choice(((1, 2), (1, 3), (1, 4), (2, 0)))
+    with rig.scratch_dir() as d:
+        srv = rig.Server(d + '/db.sqlite')
+        try:
+            pairs = []
+            for _ in range(2):
+                length = rng.choice((1024, 2048))
+                r = srv.send([op_create_key_pair(CA.RSA, length)], a, (1, 2))
+                if r.error is not None or not r.ok():
+                    ctx.unsure('CreateKeyPair refused in the sign/verify workload: %s' % (r.brief(),))
+                    return
+                priv = T.val(r.payload(), E.Tags.PRIVATE_KEY_UNIQUE_IDENTIFIER.value)
+                pub = T.val(r.payload(), E.Tags.PUBLIC_KEY_UNIQUE_IDENTIFIER.value)
+                for u in (priv, pub):
+                    srv.send([op_activate(u)], a, (1, 2))
+                g = srv.send([op_get(pub)], a, (1, 2))
+                val = None
+                for _, it in T.walk(g.payload() or (0, 1, [])):
+                    if it[0] == 0x420043:
+                        val = it[2]
+                try:
+                    pk = load_der_public_key(val)
+                except Exception:
+                    pk = None
+                pairs.append((priv, pub, pk))
+            combos = [dict(digital_signature_algorithm=m) for m in DSA] + \
+                     [dict(cryptographic_algorithm=CA.RSA, hashing_algorithm=h) for h in HA] + \
+                     [dict(cryptographic_algorithm=CA.RSA, hashing_algorithm=HA.SHA_256, digital_signature_algorithm=DSA.SHA256_WITH_RSA_ENCRYPTION)]
+            rng.shuffle(combos)
+            for combo in combos:
+                for padm in (PM.PKCS1v15, PM.PSS):
+                    priv, pub, pk = pairs[0]
+                    msg = rb(rng, rng.choice((0, 1, 33, 500)))
+                    label = '+'.join(v.name for v in combo.values())
+                    params = cparams(padding_method=padm, **combo)
+                    r = srv.send([op_sign(priv, msg, params)], a, version)
+                    ctx.ev()
+                    if r.error is not None or not r.ok():
+                        ctx.cell('server-sign', label, padm.name, 'refused')
+                        ctx.count('refused')
+                        continue
+                    sig = T.val(r.payload(), T_SIG)
+                    ctx.cell('server-sign', label, padm.name, 'ok')
+                    v = srv.send([op_signature_verify(pub, msg, sig, params)], a, version)
+                    ctx.count('roundtrips')
+                    ctx.count('server_sign_verify_roundtrips')
+                    if v.error is not None or not v.ok() or T.val(v.payload(), T_VAL) != VALID:
+                        ctx.violation('server|verify|%s|%s|rejects-own' % (label, padm.name),
+                                      'SignatureVerify through the server does not report VALID for a signature Sign just produced '
+                                      'with the matching key and parameters (%s)' % (v.brief() if v.error is not None or not v.ok() else 'INVALID'),
+                                      {'version': version, 'params': label, 'padding': padm.name})
+                    # independent verifier
+                    h = hmap.get(combo.get('hashing_algorithm')) or (_hash_of_dsa(combo['digital_signature_algorithm'])
+                                                                     if combo.get('digital_signature_algorithm') else None)
+                    if pk is not None and h is not None and len(combo) < 3:
+                        try:
+                            if padm == PM.PKCS1v15:
+                                pk.verify(sig, msg, apad.PKCS1v15(), h())
+                            else:
+                                pk.verify(sig, msg, apad.PSS(mgf=apad.MGF1(h()), salt_length=apad.PSS.AUTO), h())
+                            ctx.count('references_compared')
+                        except Exception as e:
+                            ctx.violation('server|sign|%s|%s|independent-verify' % (label, padm.name),
+                                          'an independent verifier rejects the signature the server produced: %r' % e, None)
+                    # negatives: message, signature, key of the other pair
+                    for what in ('message', 'signature', 'key'):
+                        m2, s2, k2 = msg, sig, pub
+                        if what == 'message':
+                            m2 = msg + b'x'
+                        elif what == 'signature':
+                            i = rng.randrange(len(sig))
+                            s2 = sig[:i] + bytes([sig[i] ^ (1 << rng.randrange(8))]) + sig[i + 1:]
+                        else:
+                            k2 = pairs[1][1]
+                        ctx.count('negatives_tried')
+                        n = srv.send([op_signature_verify(k2, m2, s2, params)], a, version)
+                        if n.error is None and n.ok() and T.val(n.payload(), T_VAL) == VALID:
+                            ctx.violation('server|verify|%s|%s|accepts-wrong-%s' % (label, padm.name, what),
+                                          'SignatureVerify through the server reports VALID for a wrong %s' % what, None)
+        finally:
+            srv.close()
+    ctx.sample({'function': 'server sign/verify', 'version': version})
+
+
+def run_asym(ctx, rng, ce):
+    """RSA encryption through the cryptography engine: Decrypt inverts Encrypt, an independent decryption gives the
+    plaintext, a modified ciphertext does not decrypt to the plaintext."""
+    from cryptography.hazmat.primitives import hashes
+    from cryptography.hazmat.primitives.asymmetric import padding as apad
+    from cryptography.hazmat.primitives.serialization import load_der_private_key
+    hmap = {HA.SHA_1: hashes.SHA1, HA.SHA_224: hashes.SHA224, HA.SHA_256: hashes.SHA256, HA.SHA_384: hashes.SHA384,
+            HA.SHA_512: hashes.SHA512, HA.MD5: hashes.MD5}
+    pub, priv = ce.create_asymmetric_key_pair(CA.RSA, 2048)
+    pub2, priv2 = ce.create_asymmetric_key_pair(CA.RSA, 2048)
+    for padm, h in [(PM.PKCS1v15, None)] + [(PM.OAEP, x) for x in HA] + [(PM.PSS, None), (PM.PKCS5, None), (None, None)]:
+        for n in (0, 1, 32, 100):
+            msg = rb(rng, n)
+            ctx.ev()
+            label = '%s+%s' % (padm.name if padm else 'none', h.name if h else '-')
+            try:
+                res = ce.encrypt(CA.RSA, pub['value'], msg, padding_method=padm, hashing_algorithm=h)
+            except Exception as e:
+                ctx.cell('asym-encrypt', label, 'refused:' + type(e).__name__)
+                ctx.count('refused')
+                continue
+            ct = res['cipher_text']
+            ctx.cell('asym-encrypt', label, 'ok')
+            try:
+                back = ce.decrypt(CA.RSA, priv['value'], ct, padding_method=padm, hashing_algorithm=h)
+            except Exception as e:
+                ctx.violation('asym|%s|decrypt-raises' % label, 'Decrypt of an own RSA ciphertext raised %r' % e, None)
+                continue
+            ctx.count('roundtrips')
+            if back != msg:
+                ctx.violation('asym|%s|roundtrip' % label, 'Decrypt(Encrypt(m)) != m for RSA', None)
+            if h is None or h in hmap:
+                try:
+                    k = load_der_private_key(priv['value'], None)
+                    pobj = apad.PKCS1v15() if padm == PM.PKCS1v15 else apad.OAEP(mgf=apad.MGF1(hmap[h]()), algorithm=hmap[h](), label=None)
+                    ctx.count('references_compared')
+                    if k.decrypt(ct, pobj) != msg:
+                        ctx.violation('asym|%s|reference' % label, 'an independent RSA decryption of the ciphertext differs from the plaintext', None)
+                except Exception as e:
+                    ctx.violation('asym|%s|reference' % label, 'an independent RSA decryption of the ciphertext fails: %r' % e, None)
+            ctx.count('negatives_tried')
+            try:
+                other = ce.decrypt(CA.RSA, priv2['value'], ct, padding_method=padm, hashing_algorithm=h)
+            except Exception:
+                other = None
+            if other == msg and n > 0:
+                ctx.violation('asym|%s|wrong-key' % label, 'an RSA ciphertext decrypts to the plaintext under another private key', None)
+    ctx.sample({'function': 'rsa encrypt/decrypt'})
 
 
 def run_server(ctx, rng):
